@@ -22,6 +22,9 @@ uint32_t x__ZN4Poco3Net12StreamSocket12receiveBytesEPvii(struct S_class_2ePoco_3
 {
   vf_recv_calls++;
   __CPROVER_assert((int32_t)n >= 1, "socket model: positive request size");
+  /* recv contract: the caller's buffer must have room for the whole requested length, whatever the peer then delivers. This exposes a
+     reader that accepts an oversized (e.g. wrapped) BodyLength even when the symbolic stream is too short to overrun the buffer. */
+  __CPROVER_assert(__CPROVER_w_ok(buf, n), "C15: receiveBytes is only asked for as many bytes as the destination buffer can hold");
   if (vf_stream_pos >= vf_stream_len) return 0;              /* peer closed */
   uint32_t avail = vf_stream_len - vf_stream_pos;
   uint32_t lim = n < avail ? n : avail;
